@@ -506,6 +506,20 @@ func (o *ObjectSchema) applySubObjectDefaultValues(
 	if reflectedType.Kind() == reflect.Pointer {
 		return
 	}
+	// The same goes for a property whose struct field is a pointer although its schema reflects as the struct itself
+	// (NewStructMappedObjectSchema[T] for a field of type *T): unset, the field stays nil. It is also what ends the
+	// descent for recursive types, which Go only allows through a pointer.
+	owner := o
+	if len(path) > 0 {
+		if converted, ok := ConvertToObjectSchema(path[len(path)-1]); ok {
+			if ownerSchema, ok := converted.(*ObjectSchema); ok {
+				owner = ownerSchema
+			}
+		}
+	}
+	if field, ok := owner.fieldCache[propertyID]; ok && field.Type.Kind() == reflect.Pointer {
+		return
+	}
 	var subObject Object
 	switch property.TypeID() {
 	case TypeIDRef:
